@@ -292,7 +292,11 @@ fn run_once<T: Sc, F: Factory<T>>(
                         let _ = (worst, scale, cn);
                         // chi2 and sigma
                         let nr2: f64 = wr.iter().map(|v| v * v).sum();
-                        let dof = (n - m - p) as f64;
+                        // (an Ok for N <= M+P is already a violation above; no identity to check then)
+                        let dof = n as f64 - m as f64 - p as f64;
+                        if dof <= 0.0 {
+                            continue;
+                        }
                         let chi = s.reduced_chi2.f();
                         let want = nr2 / dof;
                         let tol = 16.0 * n as f64 * T::u();
